@@ -42,7 +42,7 @@ func (c15) Mandatory(tier string) []string {
 	for _, col := range []string{"name", "mtime", "uid", "gid", "mode", "size"} {
 		m = append(m, "corrupt:column-"+col)
 	}
-	for _, v := range []string{"-5", "-0", "-60", "-61", "9999999999", "blank", "abc", "+5"} {
+	for _, v := range hostileVals {
 		m = append(m, "corrupt:size="+v)
 	}
 	return m
@@ -56,10 +56,14 @@ type arOutcome struct {
 func (o arOutcome) String() string { return fmt.Sprintf("err=%v members=%v", o.err, o.members) }
 
 // iterateAr runs LoadAr+Next to the end under the monitors.
-func c15IterateAr(c *core.C, raw []byte, report bool) (arOutcome, bool) {
+func c15IterateAr(c *core.C, raw []byte, report bool, sized bool) (arOutcome, bool) {
 	var out arOutcome
 	cr := &core.CountingReaderAt{In: bytes.NewReader(raw), HeaderLen: 60, Size: int64(len(raw)), Limit: len(raw)/60 + 1}
-	ar, err := deb.LoadAr(cr)
+	var src io.ReaderAt = cr
+	if sized {
+		src = core.SizedCountingReaderAt{CountingReaderAt: cr}
+	}
+	ar, err := deb.LoadAr(src)
 	if err != nil {
 		out.err = true
 		return out, false
@@ -142,9 +146,10 @@ func tailInts(x []int64, n int) []int64 {
 }
 
 func (p c15) arCase(c *core.C, raw []byte) {
-	first, interesting := c15IterateAr(c, raw, true)
+	first, interesting := c15IterateAr(c, raw, true, false)
 	for i := 0; i < 3; i++ {
-		again, _ := c15IterateAr(c, raw, false)
+		// alternate between a plain ReaderAt and one that also has Size()
+		again, _ := c15IterateAr(c, raw, i == 0, i%2 == 0)
 		if again.String() != first.String() {
 			c.Failf("iterating the same bytes twice gave different outcomes:\n %s\n %s", first, again)
 			break
@@ -179,9 +184,14 @@ func (p c15) debCase(c *core.C, raw []byte) {
 			return
 		}
 	}
+	sizedToggle := false
 	run := func(report bool) string {
 		cr := &core.CountingReaderAt{In: bytes.NewReader(raw), HeaderLen: 60, Size: int64(len(raw)), Limit: len(raw)/60 + 1 + 8, Track: true}
-		d, err := deb.Load(cr, "hostile.deb")
+		var src io.ReaderAt = cr
+		if sizedToggle = !sizedToggle; sizedToggle {
+			src = core.SizedCountingReaderAt{CountingReaderAt: cr}
+		}
+		d, err := deb.Load(src, "hostile.deb")
 		if cr.Exceeded && report {
 			c.Failf("Load did not finish within %d header reads for %d input bytes: header reads at %v", cr.Limit, len(raw), tailInts(cr.Headers, 8))
 		}
@@ -222,7 +232,7 @@ var headerCols = []struct {
 	off, end int
 }{{"name", 0, 16}, {"mtime", 16, 28}, {"uid", 28, 34}, {"gid", 34, 40}, {"mode", 40, 48}, {"size", 48, 58}}
 
-var hostileVals = []string{"-5", "-0", "-60", "-61", "9999999999", "blank", "abc", "+5"}
+var hostileVals = []string{"-5", "-0", "-60", "-61", "9999999999", "blank", "abc", "+5", " -60", "  -5", "\t-61", " +7", " 12 "}
 
 func setCol(raw []byte, hdr int64, col int, val string) []byte {
 	out := append([]byte{}, raw...)
